@@ -45,7 +45,7 @@ MANIFEST = dict(
     text="The cdylib is rebuilt from the repository's current tree on every run and imported as `similari` by the interpreter "
          "PyO3 was configured with. TLC generates the scripts: tracker call sequences (predict / predict_with_scene, batch "
          "requests and results incl. batch_size / ready / get, skip_epochs(_for_scene), current_epoch(_with_scene), "
-         "idle_tracks(_with_scene), wasted, clear_wasted, shard_stats) for Sort, BatchSort, VisualSort and BatchVisualSort, "
+         "idle_tracks(_with_scene), wasted, clear_wasted, shard_stats; every script ends with an epilogue that reads the live count and everything wasted() hands out) for Sort, BatchSort, VisualSort and BatchVisualSort, "
          "also for trackers constructed with the documented defaults (Python passes no or only some keyword arguments, the "
          "Rust side passes every documented default explicitly); constraint tables; NMS lists; lattice box pairs (clipping, "
          "intersection area, Polygon), conversions and polygons (BoundingBox / Universal2DBox constructors, getters, setters, "
